@@ -106,6 +106,14 @@ CLAIMED = {
         "across batch sizes (tolerance rtol 2e-5); sampling methods run eagerly under a fixed seed. Methods whose per-method model is not finished yet are covered here by the "
         "differential runs only (see DESIGN.md).",
    design="5 (C03)", technique="Coq corollaries of per-method Model=Spec theorems + generic list lemmas; differential runs across batch sizes on the real code"),
+ "C12": dict(
+   text="Machine-checked proofs that the model of tensor_sanitize maps a dataset batched by any b >= 1 (remainder batch included), the unbatched dataset and plain arrays "
+        "to the same (inputs, targets), hence identical explanations for every explain function, that __call__ is explain, and - derived from the proved value models of "
+        "Saliency, GradientInput, Occlusion, IntegratedGradients, RISE - one explanation per input with the documented size (W; T*W; H*W*1 with a reducer; H*W*C without). "
+        "The implementation is observed for all 16 methods x supported kinds x shapes x N x containers x dtypes: shape, float32 dtype, finiteness, equality across containers.",
+   note="dtype, finiteness and the shapes of the 11 methods without a value model are OBSERVED on the implementation (not expressible over exact rationals / not modelled); "
+        "sampling methods run eagerly under a fixed seed; a batched dataset hidden behind prefetch/map is a recorded known finding (C12-prefetch).",
+   design="5 (C12)", technique="Coq proofs (concat-of-chunks round trip, shape corollaries of the per-method Model=Spec theorems) + observation of the implementation across containers"),
 }
 PENDING_REASON = "check not built yet in this session (work in progress; planned in DESIGN.md section 5)"
 
